@@ -11,12 +11,12 @@ import traceback
 from harness import scenarios
 
 CLASSES_FOR = {
-    'C01': ['ListDataset', 'DictDataset', 'MapDataset', 'SliceDataset', 'ConcatenateDataset', 'ZipDataset',
+    'C01': ['IntersperseDataset', 'ListDataset', 'DictDataset', 'MapDataset', 'SliceDataset', 'ConcatenateDataset', 'ZipDataset',
             'KeyZipDataset', 'ItemsDataset', 'BatchDataset', 'UnbatchDataset', 'FilterDataset',
             'CatchExceptionDataset'],
-    'C02': ['ListDataset', 'DictDataset', 'MapDataset', 'SliceDataset', 'ConcatenateDataset', 'ZipDataset',
+    'C02': ['IntersperseDataset', 'ListDataset', 'DictDataset', 'MapDataset', 'SliceDataset', 'ConcatenateDataset', 'ZipDataset',
             'KeyZipDataset', 'ItemsDataset', 'BatchDataset'],
-    'C03': ['DictDataset', 'MapDataset', 'SliceDataset', 'ConcatenateDataset', 'KeyZipDataset', 'ItemsDataset',
+    'C03': ['IntersperseDataset', 'DictDataset', 'MapDataset', 'SliceDataset', 'ConcatenateDataset', 'KeyZipDataset', 'ItemsDataset',
             'FilterDataset', 'CatchExceptionDataset'],
     'C14': ['FilterDataset', 'CatchExceptionDataset'],
 }
@@ -58,6 +58,29 @@ def _mk(fn_name, bound):
     return run
 
 
+def _intersperse_init(tier):
+    """ORDER(self) after the real __init__ for every tuple of input lengths"""
+    import itertools
+    import lazy_dataset
+    from lazy_dataset.core import IntersperseDataset
+    cases, fails = 0, []
+    M, LEN = (3, 5) if tier == 'quick' else (4, 9)
+    for m in range(1, M + 1):
+        for lens in itertools.product(range(1, LEN + 1), repeat=m):
+            cases += 1
+            ds = IntersperseDataset(*[lazy_dataset.new(list(range(n))) for n in lens])
+            seen = [0] * m
+            ok = len(ds.order) == sum(lens)
+            for _, d, e in ds.order:
+                ok = ok and 0 <= d < m and e == seen[d] and e < lens[d]
+                seen[d] += 1
+            if not ok or seen != list(lens):
+                fails.append({'scenario': 'IntersperseDataset of lengths %r' % (lens,), 'mismatches': [
+                    {'clause': 'ORDER', 'observed': repr(ds.order)[:200], 'expected': 'rank table covering every example once'}]})
+                return cases, fails, 'all length tuples with m <= %d, each <= %d' % (M, LEN)
+    return cases, fails, 'all length tuples with m <= %d, each <= %d' % (M, LEN)
+
+
 EXTRA_MORE = {
     'C09': [('bounded-isolation', _mk('isolation', 'new/from_list in pickle, copy, wu mode and memory/disk cache; 7 access paths, miss and hit, nested in-place mutations'))],
     'C10': [('bounded-cache-histories', _mk('cache_histories', 'all access histories of length 2 (3 thorough) over 17 operations on a 4-example cache with a freshly random upstream; memory threshold crossed after 0..4 stores'))],
@@ -65,6 +88,8 @@ EXTRA_MORE = {
     'C15': [('bounded-split', _mk('split_exhaustive', 'all (n, k, i) with n <= 40 (300 thorough), k in [-1, n+2], shard indices {0, k-1, -1}'))],
     'C18': [('bounded-sort-groupby', _mk('sort_group', 'all value sequences over {0,1,2} up to length 5 (7 thorough), reverse on/off, incomparable payloads, scalar and tuple group ids'))],
 }
+
+EXTRA_INIT = [('bounded-intersperse-init', _intersperse_init)]
 
 EXTRA = {'C16': [('bounded-laws', _laws)], 'C08': [('bounded-demand', _effects)], 'C17': [('bounded-bucket-iter', _bucket)], 'C12': [('bounded-shuffles', _shuffle)],
          'C13': [('bounded-seed-determinism', _shuffle)]}
@@ -110,7 +135,7 @@ def main():
                         'bound': 'source lengths 0..6 and the parameter grid of harness/scenarios.py',
                         'failures': (unexplained or fl)[:5],
                         'known_finding_cases': len(fl) - len(unexplained)})
-        for name, fn in EXTRA.get(a.prop, []) + EXTRA_MORE.get(a.prop, []):
+        for name, fn in EXTRA.get(a.prop, []) + EXTRA_MORE.get(a.prop, []) + (EXTRA_INIT if a.prop in ('C01', 'C02') else []):
             cases, fails, bound = fn(a.tier)
             out.append({'name': name, 'kind': 'bounded', 'cases': cases, 'bound': bound, 'failures': fails[:5],
                         'known_finding_cases': 0})
